@@ -198,7 +198,7 @@ Qed.
 (* [RI Z s A]: the wrapped stream started as Z; the reader has taken the bytes A so far *)
 Definition RI (Z : list N) (s : istate D) (A : list N) : Prop :=
   exists zs ps fed del, Str zs ps /\ DR (i_drv s) fed del /\ Z = zs ++ fed ++ i_src s /\
-    A ++ skipn (i_off s) (i_buf s) = ps ++ del /\ length (i_buf s) <= bufsz.
+    A ++ skipn (i_off s) (i_buf s) = ps ++ del /\ length (i_buf s) <= bufsz /\ i_off s <= length (i_buf s).
 
 (* an error was reported: this call of process_data failed *)
 Definition EI (Z : list N) : Prop :=
@@ -208,16 +208,16 @@ Definition EI (Z : list N) : Prop :=
 Lemma precache_fuel_ok src fed : mu src fed + 2 <= precache_fuel src.
 Proof. unfold mu, precache_fuel. destruct (nilb fed); lia. Qed.
 
-Lemma gbd_spec Z s A want : 1 <= want -> RI Z s A ->
+Lemma gbd_spec Z s A want : RI Z s A ->
   match get_buffered_data drv bufsz s want with
   | Fuel => False
   | Err => EI Z
   | Ok (s', eof, w) => w = skipn (i_off s') (i_buf s') /\ eof = nilb w /\ RI Z s' A /\ (eof = true -> Str Z A)
   end.
 Proof.
-  intros Hw (zs & ps & fed & del & HS & HR & EZ & EA & HL).
+  intros (zs & ps & fed & del & HS & HR & EZ & EA & HL & HO).
   unfold get_buffered_data.
-  destruct ((length (i_buf s) =? 0) || (length (i_buf s) - i_off s <? Nat.min want bufsz)) eqn:Hc.
+  destruct ((length (i_buf s) =? i_off s) || (length (i_buf s) - i_off s <? Nat.min want bufsz)) eqn:Hc.
   - unfold precache.
     assert (Hb : length (skipn (i_off s) (i_buf s)) < bufsz).
     { rewrite skipn_length. apply orb_true_iff in Hc. destruct Hc as [Hc|Hc].
@@ -234,7 +234,7 @@ Proof.
       { rewrite A2, app_assoc, EA, <- app_assoc. exact A7. }
       split.
       * exists zs', ps', fed', del'. cbn [i_drv i_src i_off i_buf skipn].
-        split; [assumption|]. split; [assumption|]. split; [|split; assumption].
+        split; [assumption|]. split; [assumption|]. split; [|split; [assumption|split; [assumption|lia]]].
         rewrite EZ, A1. rewrite !app_assoc. rewrite <- (app_assoc zs fed c). rewrite A6. reflexivity.
       * intro He. apply nilb_true in He. destruct (A8 He) as [-> ->].
         pose proof (dd_nil _ _ _ _ DD _ _ A5) as ->.
@@ -248,39 +248,38 @@ Proof.
       split; [assumption|]. split; [assumption|]. split; [|assumption].
       rewrite EZ, A1. rewrite !app_assoc. rewrite <- (app_assoc zs fed c). rewrite A4. reflexivity.
   - split; [reflexivity|]. split; [reflexivity|]. split.
-    + exists zs, ps, fed, del. auto.
+    + exists zs, ps, fed, del. repeat (split; [assumption|]). assumption.
     + intro He. exfalso. apply nilb_true in He.
-      apply orb_false_iff in Hc. destruct Hc as [_ Hc]. apply Nat.ltb_ge in Hc.
+      apply orb_false_iff in Hc. destruct Hc as [Hc _]. apply Nat.eqb_neq in Hc.
       apply (f_equal (@length N)) in He. rewrite skipn_length in He. simpl in He. lia.
 Qed.
 
-Lemma RI_advance Z s A t :
+Lemma RI_advance Z s A t : t <= length (skipn (i_off s) (i_buf s)) ->
   RI Z s A -> RI Z (advance s t) (A ++ firstn t (skipn (i_off s) (i_buf s))).
 Proof.
-  intros (zs & ps & fed & del & HS & HR & EZ & EA & HL).
+  intros Ht (zs & ps & fed & del & HS & HR & EZ & EA & HL & HO).
   exists zs, ps, fed, del. cbn [advance i_drv i_src i_off i_buf].
-  split; [assumption|]. split; [assumption|]. split; [assumption|]. split; [|assumption].
+  split; [assumption|]. split; [assumption|]. split; [assumption|].
+  split; [|split; [assumption|rewrite skipn_length in Ht; lia]].
   rewrite <- EA, <- app_assoc. f_equal.
   rewrite <- skipn_skipn_add. now rewrite firstn_skipn.
 Qed.
 
-Definition wants_ok (ops : list (nat * nat)) : Prop := Forall (fun o => 1 <= fst o) ops.
 Definition takes_ok (ops : list (nat * nat)) : Prop := Forall (fun o => 1 <= snd o) ops.
 
 Lemma reader_spec Z : forall ops s A acc e s',
-  wants_ok ops -> RI Z s A -> reader drv bufsz s ops A = (acc, e, s') ->
+  RI Z s A -> reader drv bufsz s ops A = (acc, e, s') ->
   e <> RFuel /\ RI Z s' acc /\ (e = REof -> Str Z acc) /\ (e = RErr -> EI Z).
 Proof.
-  induction ops as [|[want take] ops IH]; intros s A acc e s' Hw HI HR; cbn [reader] in HR.
+  induction ops as [|[want take] ops IH]; intros s A acc e s' HI HR; cbn [reader] in HR.
   - injection HR as <- <- <-. split; [discriminate|]. split; [assumption|]. split; discriminate.
-  - inversion Hw as [|o l Hw1 Hw2]; subst. cbn [fst] in Hw1.
-    pose proof (gbd_spec Z s A want Hw1 HI) as HG.
+  - pose proof (gbd_spec Z s A want HI) as HG.
     destruct (get_buffered_data drv bufsz s want) as [[[s1 eof] w]| |]; [| |contradiction].
     + destruct HG as (Ew & Ee & HI1 & HE).
       destruct eof.
       * injection HR as <- <- <-. split; [discriminate|]. split; [assumption|].
         split; [intros _; apply HE; reflexivity|discriminate].
-      * eapply IH; [exact Hw2| |exact HR]. rewrite Ew. apply RI_advance. exact HI1.
+      * eapply IH; [|exact HR]. rewrite Ew. apply RI_advance; [|exact HI1]. rewrite <- Ew. lia.
     + injection HR as <- <- <-. split; [discriminate|]. split; [assumption|].
       split; [discriminate|]. intros _. exact HG.
 Qed.
@@ -296,7 +295,7 @@ Proof.
     destruct eof eqn:He; [discriminate|].
     assert (Hwne : w <> []).
     { unfold get_buffered_data in HG.
-      destruct ((length (i_buf s) =? 0) || (length (i_buf s) - i_off s <? Nat.min want bufsz)).
+      destruct ((length (i_buf s) =? i_off s) || (length (i_buf s) - i_off s <? Nat.min want bufsz)).
       - destruct (precache drv bufsz s); try discriminate. injection HG as _ E2 E3. subst w.
         now apply nilb_false.
       - injection HG as _ E2 E3. subst w. now apply nilb_false. }
@@ -306,13 +305,13 @@ Qed.
 
 Lemma RI_init Z d0 ws : DR d0 [] [] -> RI Z (istream_init d0 Z ws) [].
 Proof.
-  intro H. exists [], [], [], []. cbn. repeat split; try constructor; auto. lia.
+  intro H. exists [], [], [], []. cbn. repeat split; try constructor; auto; lia.
 Qed.
 
 (* the bytes taken so far are a prefix of the contents of every member sequence the input is a prefix of *)
 Lemma RI_prefix Z s A y P : RI Z s A -> Str (Z ++ y) P -> prefix A P.
 Proof.
-  intros (zs & ps & fed & del & HS & HR & EZ & EA & HL) HP.
+  intros (zs & ps & fed & del & HS & HR & EZ & EA & HL & HO) HP.
   rewrite EZ in HP. rewrite <- !app_assoc in HP.
   destruct (stream_split F HS _ HP) as (P' & HP' & ->).
   assert (Hd : prefix del P').
@@ -352,20 +351,20 @@ Hypothesis Hd0 : DR d0 [] [].
 (* EOF is sound on EVERY input: it means that all of the input has been consumed, that it is a
    sequence of complete members, and that every byte of their contents has been handed out *)
 Lemma istream_eof_sound_l : forall Z ws ops acc e s',
-  wants_ok ops -> reader drv bufsz (istream_init d0 Z ws) ops [] = (acc, e, s') ->
+  reader drv bufsz (istream_init d0 Z ws) ops [] = (acc, e, s') ->
   e <> RFuel /\ (e = REof -> Str Z acc).
 Proof.
-  intros Z ws ops acc e s' Hw HR.
-  destruct (reader_spec Z ops _ _ _ _ _ Hw (RI_init Z d0 ws Hd0) HR) as (H1 & _ & H3 & _). auto.
+  intros Z ws ops acc e s' HR.
+  destruct (reader_spec Z ops _ _ _ _ _ (RI_init Z d0 ws Hd0) HR) as (H1 & _ & H3 & _). auto.
 Qed.
 
 Lemma istream_transparent_l : forall Z P ws ops acc e s',
-  Str Z P -> wants_ok ops -> reader drv bufsz (istream_init d0 Z ws) ops [] = (acc, e, s') ->
+  Str Z P -> reader drv bufsz (istream_init d0 Z ws) ops [] = (acc, e, s') ->
   prefix acc P /\ e <> RErr /\ e <> RFuel /\ (e = REof -> acc = P) /\
   (takes_ok ops -> length P < length ops -> e = REof /\ acc = P).
 Proof.
-  intros Z P ws ops acc e s' HP Hw HR.
-  destruct (reader_spec Z ops _ _ _ _ _ Hw (RI_init Z d0 ws Hd0) HR) as (H1 & H2 & H3 & H4).
+  intros Z P ws ops acc e s' HP HR.
+  destruct (reader_spec Z ops _ _ _ _ _ (RI_init Z d0 ws Hd0) HR) as (H1 & H2 & H3 & H4).
   assert (Hpre : prefix acc P).
   { apply (RI_prefix Z s' acc [] P H2). now rewrite app_nil_r. }
   assert (Hne : e <> RErr).
@@ -382,13 +381,13 @@ Qed.
 
 (* the input ends inside a member: zs complete members, then a proper non-empty prefix x of a member *)
 Lemma truncated_l : forall zs ps x y p ws ops acc e s',
-  Str zs ps -> Member (x ++ y) p -> x <> [] -> y <> [] -> wants_ok ops ->
+  Str zs ps -> Member (x ++ y) p -> x <> [] -> y <> [] ->
   reader drv bufsz (istream_init d0 (zs ++ x) ws) ops [] = (acc, e, s') ->
   e <> REof /\ e <> RFuel /\ prefix acc (ps ++ p) /\
   (takes_ok ops -> length (ps ++ p) < length ops -> e = RErr).
 Proof.
-  intros zs ps x y p ws ops acc e s' HS Hm Hx Hy Hw HR.
-  destruct (reader_spec (zs ++ x) ops _ _ _ _ _ Hw (RI_init _ d0 ws Hd0) HR) as (H1 & H2 & H3 & H4).
+  intros zs ps x y p ws ops acc e s' HS Hm Hx Hy HR.
+  destruct (reader_spec (zs ++ x) ops _ _ _ _ _ (RI_init _ d0 ws Hd0) HR) as (H1 & H2 & H3 & H4).
   assert (Hne : e <> REof).
   { intro E. eapply (@stream_no_partial _ F _ _ _ _ _ HS Hm Hy Hx). apply H3. exact E. }
   assert (Hpre : prefix acc (ps ++ p)).
@@ -402,11 +401,11 @@ Qed.
 (* more generally: whatever the input is, if it is not a sequence of complete members the reader
    never reports EOF (trailing garbage, damaged trailer, ...) *)
 Lemma not_stream_no_eof_l : forall Z ws ops acc e s',
-  (forall P, ~ Str Z P) -> wants_ok ops ->
+  (forall P, ~ Str Z P) ->
   reader drv bufsz (istream_init d0 Z ws) ops [] = (acc, e, s') -> e <> REof /\ e <> RFuel.
 Proof.
-  intros Z ws ops acc e s' Hn Hw HR.
-  destruct (istream_eof_sound_l _ _ _ _ _ _ Hw HR) as [H1 H2].
+  intros Z ws ops acc e s' Hn HR.
+  destruct (istream_eof_sound_l _ _ _ _ _ _ HR) as [H1 H2].
   split; [|assumption]. intro E. eapply Hn. apply H2. exact E.
 Qed.
 
